@@ -357,6 +357,13 @@ func init() {
 		return Sc{Or(Not(xn), Eq(xv, TZero)), types.Typ[types.Bool]}
 	}
 	externals[mt+"Now"] = externals["time.Now"]
+	ctxNew := func(u *Unit, fr *frame, st *State, c *ssa.Function, a []Value, rt types.Type, pos token.Pos) Value {
+		v := u.ctx.Const("context.Background", SInt)
+		u.ctx.AssertAlways(And(Cmp(">", v, TZero), Eq(app("objof", SInt, v), TZero)), "context.Background is a non-nil constant")
+		return Sc{v, rt}
+	}
+	externals["context.Background"] = ctxNew
+	externals["context.TODO"] = ctxNew
 	// maps -------------------------------------------------------------------
 	externals["maps.Clone"] = func(u *Unit, fr *frame, st *State, c *ssa.Function, a []Value, rt types.Type, pos token.Pos) Value {
 		mt := c.Signature.Params().At(0).Type()
